@@ -2423,7 +2423,7 @@ def analyze(path, fname, nbytes=96, unwind=8, timeout_s=600, covers=(), extra_qu
         todo.append(('cover=%d' % c, retis(c), 'sat'))
     for name, k, expect in (extra_queries or []):
         todo.append((name, retis(k), expect))
-    qjobs = int(os.environ.get('LLSYM_QJOBS', '4'))
+    qjobs = int(os.environ.get('LLSYM_QJOBS', '3'))
     hard = [t_ for t_ in todo if t_[1] is not False]
     if qjobs <= 1 or len(hard) <= 1 or smt_dump:
         out['queries'] = [solve(*t_) for t_ in todo]
